@@ -41,17 +41,17 @@ CLAIMED = {
     ),
     "C06": dict(
         technique="machine-checked proof in Coq (state-machine invariant of the reuse cache with the recogniser as an oracle; algebraic cancellation of the gradient counter-transform) + correspondence by vm_compute on operation sequences + metamorphic end-to-end comparison reuse on/off",
-        text="Unbounded theorems: with tolerance -1 try_reuse answers None in every cache state; over every history of add_glyph calls a reuse answer names a glyph that was added, with the same normal form, carrying exactly the affine the recogniser returned for that donor, and that affine fits Fixed 16.16 (otherwise the caller takes the un-reused branch); wrapping a donor in R while pre-composing a gradient transform with R^-1 leaves the gradient where it was (any field, det R != 0). The cache model is tied to GlyphReuseCache by replaying random operation sequences with picosvg's answers recorded as oracle tables. The property's own observation is run end to end: identical generated sources (recurring shapes under isometries, non-uniform scale, large translation, near misses, tiny donors, gradients on reused shapes) built with reuse on and off in COLRv1/COLRv0 are compared glyph by glyph, layer by layer. Found and fixed: COLRv0 layer order depended on reuse (F11); known: tolerance 0 crashes (F10).",
+        text="Unbounded theorems: with tolerance -1 try_reuse answers None in every cache state; over every history of add_glyph calls a reuse answer names a glyph that was added, with the same normal form, carrying exactly the affine the recogniser returned for that donor, and that affine fits Fixed 16.16 (otherwise the caller takes the un-reused branch); wrapping a donor in R while pre-composing a gradient transform with R^-1 leaves the gradient where it was (any field, det R != 0). The cache model is tied to GlyphReuseCache by replaying random operation sequences with picosvg's answers recorded as oracle tables. The property's own observation is run end to end: identical generated sources (recurring shapes under isometries, non-uniform scale, large translation, near misses, tiny donors, gradients on reused shapes) built with reuse on and off in COLRv1/COLRv0 are compared glyph by glyph, layer by layer. Found and fixed: COLRv0 layer order depended on reuse (F11); known: tolerance 0 crashes (F10). Also: reuse on/off pairs in picosvg through the OT-SVG interpreter, and a corpus that runs first (mirrored/stretched reuse at integral coordinates, gradients with their own transform on reused shapes, the witness of repaired finding F11). Known: F10 (tolerance 0), F18 (a shape grazing the viewBox edge is clipped to an empty path and the build fails).",
         ref="DESIGN.md 8 C06",
     ),
     "C07": dict(
         technique="machine-checked proof in Coq (validity of the SVG document list produced by the reshuffle; strike runs and offsets) + executable Coq validity predicates evaluated by vm_compute on tables abstracted from every built font + load/decompile/re-save/reload comparison",
-        text="Unbounded theorems: the reshuffle's (first gid, count) ranges of non-empty groups are sorted by start, pairwise disjoint and inside the glyph set; CBDT strikes index maximal runs of consecutive gids with exactly one bitmap per glyph; offsets contiguous. The table constraints themselves (SVG document list, COLR base records strictly increasing with every glyph/layer/palette reference in range, CBLC strikes, hmtx/outlines/maxp/post/cmap agreement) are executable Coq predicates evaluated on an abstraction of every font built in all 13 formats (.ttf/.otf); each font is loaded with lazy=False, fully decompiled, re-saved, reloaded and compared table by table; SVG documents are checked for unique ids, in-document hrefs and no cross-glyph references; post format per flavour.",
+        text="Unbounded theorems: the reshuffle's (first gid, count) ranges of non-empty groups are sorted by start, pairwise disjoint and inside the glyph set; CBDT strikes index maximal runs of consecutive gids with exactly one bitmap per glyph; offsets contiguous. The table constraints themselves (SVG document list, COLR base records strictly increasing with every glyph/layer/palette reference in range, CBLC strikes, hmtx/outlines/maxp/post/cmap agreement) are executable Coq predicates evaluated on an abstraction of every font built in all 13 formats (.ttf/.otf); each font is loaded with lazy=False, fully decompiled, re-saved, reloaded and compared table by table; SVG documents are checked for unique ids, in-document hrefs and no cross-glyph references; post format per flavour. A corpus runs first (glyphs in separate OT-SVG documents sharing one gradient), and a few fonts written by the real maximum_color CLI are validated with the same functions.",
         ref="DESIGN.md 8 C07",
     ),
     "C08": dict(
         technique="machine-checked proof in Coq (confluence of hermetic DAG execution for every dependency-respecting schedule; the source list is a function of the argument set) + graphs written by the real driver checked by the model's predicate + repeated real CLI builds under permuted arguments, hash seeds, parallelism and directories + strace of every step",
-        text="Unbounded theorems: for every hermetic tool semantics, every well-formed graph (unique outputs, acyclic) and every schedule that runs each edge once after the producers of its inputs, every file ends with the same content, and that content is a fixed point of its edge; config.load's source list depends only on the set of arguments. Tie: the build.ninja the real driver writes is parsed (fail-closed), topologically sorted and checked by the model's wf_graph inside Coq, every write_font edge must declare config/fea/glyphmap/part file; each build step is traced with strace and may only read files its edge transitively declares (the hermeticity hypothesis). End to end: real CLI builds of generated source sets in vector, OT-SVG and bitmap formats under reversed/shuffled/duplicated argv, up to ten PYTHONHASHSEEDs, ninja -j1/-j16, other cwd and build directory: font sha256 and all intermediates (except the parts files the property excludes) must coincide.",
+        text="Unbounded theorems: for every hermetic tool semantics, every well-formed graph (unique outputs, acyclic) and every schedule that runs each edge once after the producers of its inputs, every file ends with the same content, and that content is a fixed point of its edge; config.load's source list depends only on the set of arguments. Tie: the build.ninja the real driver writes is parsed (fail-closed), topologically sorted and checked by the model's wf_graph inside Coq, every write_font edge must declare config/fea/glyphmap/part file; each build step is traced with strace and may only read files its edge transitively declares (the hermeticity hypothesis). End to end: real CLI builds of generated source sets in vector, OT-SVG and bitmap formats under reversed/shuffled/duplicated argv, up to ten PYTHONHASHSEEDs, ninja -j1/-j16, other cwd and build directory: font sha256 and all intermediates (except the parts files the property excludes) must coincide. Also proved: _dest_for_src gives distinct sources distinct intermediate paths, keeps the file name, and returns the same slot for a source seen again. A corpus set (reused shapes carrying several paint attributes, picosvg) runs first under eleven hash seeds.",
         ref="DESIGN.md 8 C08",
     ),
     "C09": dict(
@@ -61,7 +61,7 @@ CLAIMED = {
     ),
     "C10": dict(
         technique="machine-checked proof in Coq (round-trip theorems for the csv dialect pair, the %04x codec and GlyphMapping rows, with refutation witnesses for the side conditions) + correspondence by vm_compute + field-coverage table from the source",
-        text="Unbounded theorems: read_text(write_rows rs) = rs for all rows whose fields have no CR/LF and no unquoted leading space (both conditions shown necessary by machine-checked counter-examples = known finding F4); parse_hex(hex04 n) = n for every n; parse_row(csv_row g) = g for every GlyphMapping incl. the empty codepoint list. The csv model (a state machine) is tied to Python's csv module and to glyphmap.csv_line/load_from by evaluating it in Coq on random rows and arbitrary text. Config precedence and write/load symmetry are exercised for every FontConfig field x {neither,file,flag,both} with real absl flags; a table extracted from config.py's ast requires every field to be written, read, flagged and passed on. File-name recovery, glyph-name legality/distinctness (known finding F3), parts JSON and response files are checked on samples.",
+        text="Unbounded theorems: read_text(write_rows rs) = rs for all rows whose fields have no CR/LF and no unquoted leading space (both conditions shown necessary by machine-checked counter-examples = known finding F4); parse_hex(hex04 n) = n for every n; parse_row(csv_row g) = g for every GlyphMapping incl. the empty codepoint list. The csv model (a state machine) is tied to Python's csv module and to glyphmap.csv_line/load_from by evaluating it in Coq on random rows and arbitrary text. Config precedence and write/load symmetry are exercised for every FontConfig field x {neither,file,flag,both} with real absl flags; a table extracted from config.py's ast requires every field to be written, read, flagged and passed on. File-name recovery, glyph-name legality/distinctness (known finding F3), parts JSON and response files are checked on samples. Glyph names: a Gallina model of glyph_name (un-hashed names) with the theorem that different sequences over code points above U+0020 get different names except for the g_-spelled pair (F3), tied to the code by evaluation in Coq; every listed value of every config field is written and reloaded.",
         ref="DESIGN.md 8 C10",
     ),
     "C11": dict(
@@ -81,22 +81,22 @@ CLAIMED = {
     ),
     "C14": dict(
         technique="machine-checked proof in Coq (lra/lia theorems about ppem, bitmap metrics with Python's half-even round, int8 nudge, strike runs, offsets) + correspondence by vm_compute",
-        text="Unbounded theorems over all integer metrics: ppem within 1/2 of upem*h/em; accepted metrics are representable; the bitmap's vertical centre is within 7/4 px (3/4 without the int8 nudge) of the scaled em-box centre and its edges follow with the explicit size mismatch; horizontal centring within 3/2 px for the repaired code and a machine-checked refutation for the original (finding F8, fixed); strikes are maximal runs of consecutive gids partitioning the sorted glyph list; offsets contiguous with 9+len records. Tied to bitmap_tables by evaluating the model in Coq on the same random metrics/images, and to make_cbdt_table/make_sbix_table by running them on fake fonts with real PNG bytes (image bytes, sizes, run structure).",
+        text="Unbounded theorems over all integer metrics: ppem within 1/2 of upem*h/em; accepted metrics are representable; the bitmap's vertical centre is within 7/4 px (3/4 without the int8 nudge) of the scaled em-box centre and its edges follow with the explicit size mismatch; horizontal centring within 3/2 px for the repaired code and a machine-checked refutation for the original (finding F8, fixed); strikes are maximal runs of consecutive gids partitioning the sorted glyph list; offsets contiguous with 9+len records. Tied to bitmap_tables by evaluating the model in Coq on the same random metrics/images, and to make_cbdt_table/make_sbix_table by running them on fake fonts with real PNG bytes (image bytes, sizes, run structure). Whole cbdt/sbix fonts built in process: image bytes, strike ppem = round(upem x height / em), font advance scaled to the strike vs bitmap width and pixel advance.",
         ref="DESIGN.md 8 C14",
     ),
     "C15": dict(
         technique="machine-checked proof in Coq (loop-invariant proof of the palette slot loop for every finite colour set) + correspondence by vm_compute",
-        text="Unbounded theorem: for every finite list of colours the deque loop of uniq_sort_cpal_colors never indexes an empty deque, ends empty, and returns exactly the specified palette (indexed colours at their index, unindexed ascending in the lowest free slots, black gaps, length max(|set|, maxidx+1) > 0, conflict => error). Tied to the code by evaluating the model in Coq on the property's small universe (exhaustive in the thorough tier) and random large sets; the implementation's outputs are judged by an independent executable spec.",
+        text="Unbounded theorem: for every finite list of colours the deque loop of uniq_sort_cpal_colors never indexes an empty deque, ends empty, and returns exactly the specified palette (indexed colours at their index, unindexed ascending in the lowest free slots, black gaps, length max(|set|, maxidx+1) > 0, conflict => error). Tied to the code by evaluating the model in Coq on the property's small universe (exhaustive in the thorough tier) and random large sets; the implementation's outputs are judged by an independent executable spec. Whole COLRv1/COLRv0 fonts (same RGBA at several indices and unindexed, translucent indexed colours, currentColor): CPAL against an independent spec and every layer's palette index and alpha against its declaration.",
         ref="DESIGN.md 8 C15",
     ),
     "C16": dict(
         technique="machine-checked proof in Coq (abstract-field theorems about a Gallina model of paint.transformed) + correspondence by vm_compute",
-        text="Theorems over an arbitrary field about the executable model of paint.transformed (exact denotation per branch, encodability), constants regenerated from fixed.py and proved equal to the OpenType ranges; the model (also of the gradient transforms and the uniform/residual split) is tied to the code by evaluating it inside Coq on the stratified inputs the real functions ran on, and the implementation's outputs are judged by executable property predicates.",
+        text="Theorems over an arbitrary field about the executable model of paint.transformed (exact denotation per branch, encodability), constants regenerated from fixed.py and proved equal to the OpenType ranges; the model (also of the gradient transforms and the uniform/residual split) is tied to the code by evaluating it inside Coq on the stratified inputs the real functions ran on, and the implementation's outputs are judged by executable property predicates. The affine each emitted transform paint reports (gettransform, used by traversals, clip boxes and COLRv0 components) is compared with the model for every generated case.",
         ref="DESIGN.md 8 C16",
     ),
     "C17": dict(
         technique="machine-checked proof in Coq (acceptance of a build's inputs <-> pairwise distinct glyph names; master validation) + correspondence by vm_compute + negative tests through the real CLI for every defect class, position and format",
-        text="Unbounded theorems: the input loop accepts a list of glyph inputs exactly when their glyph names are pairwise distinct, so an accepted build maps sources to glyphs injectively (nothing merged, nothing missing); accepted master sets are non-empty, have unique source names per master and equal name sets. Tied to write_font by running the real acceptance on generated sequence lists. End to end through the real CLI: each defect class (duplicate codepoints/sequence/file name, colliding glyph names, malformed XML, unparsable colour, unknown spreadMethod, palette index conflict, oversize CBDT bitmap, missing viewBox) at random positions among 0-5 valid sources in every format it applies to must exit non-zero and leave no fresh font; a valid control must build. Found and fixed: duplicate inputs were merged silently with exit 0 (F2).",
+        text="Unbounded theorems: the input loop accepts a list of glyph inputs exactly when their glyph names are pairwise distinct, so an accepted build maps sources to glyphs injectively (nothing merged, nothing missing); accepted master sets are non-empty, have unique source names per master and equal name sets. Tied to write_font by running the real acceptance on generated sequence lists. End to end through the real CLI: each defect class (duplicate codepoints/sequence/file name, colliding glyph names, malformed XML, unparsable colour, unknown spreadMethod, palette index conflict, oversize CBDT bitmap, missing viewBox) at random positions among 0-5 valid sources in every format it applies to must exit non-zero and leave no fresh font; a valid control must build. Found and fixed: duplicate inputs were merged silently with exit 0 (F2). Two-master builds whose later master lacks, or has, an extra source (and an agreeing control) cover the 'masters disagree' class.",
         ref="DESIGN.md 8 C17",
     ),
     "C18": dict(
